@@ -182,6 +182,7 @@ pub struct SubReport {
 
 thread_local! {
     static LAST_PANIC: RefCell<Option<String>> = const { RefCell::new(None) };
+    static IN_GUARD: std::cell::Cell<u32> = const { std::cell::Cell::new(0) };
 }
 
 pub fn install_panic_hook() {
@@ -201,6 +202,30 @@ pub fn install_panic_hook() {
     }));
 }
 
+/// For fuzz targets: install the recording hook on first use, keep libFuzzer's abort-on-panic behaviour
+/// for panics that escape `guard` (the hook chains to the previous one when not inside a guard).
+pub fn install_panic_hook_once() {
+    static ONCE: std::sync::Once = std::sync::Once::new();
+    ONCE.call_once(|| {
+        let prev = std::panic::take_hook();
+        std::panic::set_hook(Box::new(move |info| {
+            if IN_GUARD.with(|g| g.get()) > 0 {
+                let loc = info.location().map(|l| format!("{}:{}", l.file(), l.line())).unwrap_or_default();
+                let msg = if let Some(s) = info.payload().downcast_ref::<&str>() {
+                    s.to_string()
+                } else if let Some(s) = info.payload().downcast_ref::<String>() {
+                    s.clone()
+                } else {
+                    "<non-string panic>".to_string()
+                };
+                LAST_PANIC.with(|p| *p.borrow_mut() = Some(format!("{} at {}", msg, loc)));
+            } else {
+                prev(info);
+            }
+        }));
+    });
+}
+
 pub fn take_panic() -> String {
     LAST_PANIC
         .with(|p| p.borrow_mut().take())
@@ -209,7 +234,10 @@ pub fn take_panic() -> String {
 
 /// Run a closure, turning a panic into `Err(message at file:line)`.
 pub fn guard<R>(f: impl FnOnce() -> R) -> Result<R, String> {
-    match catch_unwind(AssertUnwindSafe(f)) {
+    IN_GUARD.with(|g| g.set(g.get() + 1));
+    let r = catch_unwind(AssertUnwindSafe(f));
+    IN_GUARD.with(|g| g.set(g.get() - 1));
+    match r {
         Ok(r) => Ok(r),
         Err(_) => Err(take_panic()),
     }
